@@ -20,6 +20,7 @@ type C14Op struct {
 	Kind string `json:"kind"` // write | reply | pause
 	DNS  bool   `json:"dns"`
 	Ms   int    `json:"ms"`
+	Fail bool   `json:"fail"` // write: the outbound send fails (unreachable network, port 0, ...)
 }
 
 type C14Hist struct {
@@ -36,6 +37,9 @@ func genC14Hist(t *rapid.T) C14Hist {
 		op := C14Op{Kind: rapid.SampledFrom([]string{"write", "write", "write", "reply", "reply", "pause"}).Draw(t, "kind"), DNS: rapid.Bool().Draw(t, "dns")}
 		if op.Kind == "pause" {
 			op.Ms = rapid.SampledFrom([]int{0, 1, 5, 20}).Draw(t, "ms")
+		}
+		if op.Kind == "write" {
+			op.Fail = rapid.IntRange(0, 5).Draw(t, "fail") == 0
 		}
 		if op.Kind == "reply" && writes == 0 {
 			continue // nothing was sent yet: no target knows the outbound address
